@@ -646,11 +646,12 @@ func vC12ExerciseDecoded(q Point) *vC12Err {
 	})
 }
 
-// vC12LoneQuoteField reports the binary-only known finding: a field whose raw value is the
-// single byte '"' (the decoder accepts it, StringValue slices [1:0]).
+// vC12LoneQuoteField: the fields section of a decoded frame ends in =" (a string value that is
+// only the opening quote). Since fix f6e5804 the decoder rejects that for a field with a key;
+// it still accepts it when the field key is empty (validation is skipped for empty keys, but
+// the engine's write path iterates those fields too and StringValue slices [1:0]). So on an
+// *accepted* frame this shape is exactly the residual known finding.
 func vC12LoneQuoteField(fields []byte) bool {
-	// the value scanner yields the one-byte value `"` exactly when the quote that opens a value
-	// is the last byte of the fields section; "ends in =\"" is a safe over-approximation.
 	return bytes.HasSuffix(fields, []byte(`="`))
 }
 
@@ -728,7 +729,7 @@ func TestVerifC12BinaryDecoder(t *testing.T) {
 			oc = "accepted"
 			pp := q.(*point)
 			if vC12LoneQuoteField(pp.fields) {
-				st.Exclude(vC12SigBinaryLoneQuote)
+				st.Exclude(vC12SigBinaryEmptyKeyLQ)
 				rt.Skip("known finding shape")
 			}
 			if e := vC12ExerciseDecoded(q); e != nil {
